@@ -135,7 +135,7 @@ func cbModelPart(c *Ctx, prop string) {
 			choose = c18LongEpochChooser(time.Duration(65+r.IntN(70)) * time.Second)
 			steps = 900
 		}
-		st, script, mm, err := cbRun(r, cfg, steps, choose)
+		st, script, mm, err := cbRun(r, cfg, steps, choose, func(mm *cbMismatch) bool { return cbBelongs(prop, mm) })
 		c.Eval()
 		if err != nil {
 			c.Violation("constructor", sfmt("cbreaker.New rejected a generated condition %q: %v", cfg.Cond.String(), err), nil)
